@@ -144,6 +144,9 @@ Definition ts_time_delays (spdc1 spdc2 : ts_source) : R * R * R :=
     idl_time spdc2 - idl_time spdc1 + (idl_wp spdc2 - idl_wp spdc1) / light_c),
    idl_time spdc2 - sig_time spdc1 + (idl_wp spdc2 - sig_wp spdc1) / light_c)%R.
 
+(* hom_time_delay of a single source (the delay hom_visibility evaluates the rate at) *)
+Definition hom_time_delay (spdc : ts_source) : R := (idl_time spdc - sig_time spdc + (idl_wp spdc - sig_wp spdc) / light_c)%R.
+
 (* [same] is the outcome of the test `spdc1 == spdc2` (derived structural equality; false for equal values when a field is NaN).
    same:  one series call at delay 0, all three visibilities from it, reported delays 0.
    else:  the three channel delays from hom_two_source_time_delays, one series call per channel at its delay. *)
